@@ -251,6 +251,9 @@ def run(tier: str, seed: int) -> int:
     wd = C.workdir("C12")
     try:
         run_drain(rep, wd, tier, seed)
+        from . import strace
+
+        strace.run_traces(rep, wd, tier, seed)
         rep.rule = ("one case per transition of Drain.tla (accepted send, refused send, drain of every amount 0..pending+2 and None) per role, reached through a "
                     "shortest path and through seeded random walks; distinct by (state, call, role)")
         rep.assumptions = ["D7: amounts are None or non-negative", "the expected stream is pack() of the message the call is documented to build (codec judged by C01/C03)"]
